@@ -100,7 +100,17 @@ func (r *Response) EntityWriter() (EntityReaderWriter, bool) {
 		}
 	}
 	// if requestAccept is empty
-	writer, ok := entityAccessRegistry.accessorAt(r.requestAccept)
+	writer, registeredFor, ok := entityAccessRegistry.accessorAndKeyAt(r.requestAccept)
+	if ok && len(r.routeProduces) > 0 {
+		// the header value as a whole names a registered type ; a route must still produce it
+		produced := false
+		for _, each := range r.routeProduces {
+			if each == registeredFor || each == "*/*" {
+				produced = true
+			}
+		}
+		ok = produced
+	}
 	if !ok {
 		// if not registered then fallback to the defaults (if set)
 		if DefaultResponseMimeType == MIME_JSON {
@@ -122,6 +132,7 @@ func (r *Response) EntityWriter() (EntityReaderWriter, bool) {
 		if trace {
 			traceLogger.Printf("no registered EntityReaderWriter found for %s", r.requestAccept)
 		}
+		return nil, false
 	}
 	return writer, ok
 }
